@@ -17,7 +17,7 @@ COMPONENTS = {"real": ["Atoms.extend, extend_types, _extend_extra_fields, find_e
               "oracle_only": ["mofsim.refmodel.RefAtoms.extend"]}
 ASSUMPTIONS = ["objects of one world agree per term kind on whether a coefficient table exists (compatibility)",
                "for kinds without coefficient tables only the partition 'which terms share a type' is compared, not id values"]
-NRUNS = {"quick": 1200, "thorough": 30000}
+NRUNS = {"quick": 6000, "thorough": 80000}
 MUST_REACH = ["exhaustive_maps", "repeated_extension", "emptied_kind_then_extended", "superseded_terms"]
 
 
